@@ -122,6 +122,9 @@ Opts ==
       [] OptMode = "layout" ->       \* the options that matter for plain leaves
             {[Canon EXCEPT !.omit = om, !.ws = w, !.header = hd, !.outer = ou] :
                 om \in BOOLEAN, w \in {"canon", "none", "all"}, hd \in BOOLEAN, ou \in BOOLEAN}
+      [] OptMode = "productlite" ->      \* the options that interact for parameters / sub-circuits
+            {[Canon EXCEPT !.omit = om, !.lim = li, !.flow = fl, !.bare = ba, !.ws = w, !.outer = ou] :
+                om \in BOOLEAN, li \in {"full", "omit", "pct"}, fl \in BOOLEAN, ba \in BOOLEAN, w \in {"canon", "all"}, ou \in BOOLEAN}
       [] OptMode = "product" ->
             {[omit |-> om, lim |-> li, flow |-> fl, short |-> sh, open |-> op, bare |-> ba, ws |-> w, header |-> hd,
               outer |-> ou, dec |-> 12] :
